@@ -668,11 +668,28 @@ pub fn load_known_findings() -> Vec<KnownFinding> {
 }
 
 fn sig_matches(pattern: &str, sig: &str) -> bool {
-    if let Some(p) = pattern.strip_suffix('*') {
-        sig.starts_with(p)
-    } else {
-        pattern == sig
+    // glob with '*' wildcards (each matches any substring)
+    let parts: Vec<&str> = pattern.split('*').collect();
+    if parts.len() == 1 {
+        return pattern == sig;
     }
+    let mut rest = sig;
+    for (i, p) in parts.iter().enumerate() {
+        if i == 0 {
+            if !rest.starts_with(p) {
+                return false;
+            }
+            rest = &rest[p.len()..];
+        } else if i == parts.len() - 1 {
+            return rest.ends_with(p);
+        } else {
+            match rest.find(p) {
+                Some(k) => rest = &rest[k + p.len()..],
+                None => return false,
+            }
+        }
+    }
+    true
 }
 
 fn sanitize(s: &str) -> String {
